@@ -231,6 +231,38 @@ def carmichael_upto(N):
     return out
 
 
+def carmichael3(maxq):
+    """ALL Carmichael numbers p*q*r with primes p < q <= maxq < ... r: r - 1
+    must divide p*q - 1, so r ranges over (divisors of pq-1) + 1; Korselt's
+    criterion decides.  Complete for the stated (p, q) range, whatever the
+    size of the number (reaches far beyond the sieve bound)."""
+    pr = [x for x in catalog.primes_upto(maxq) if x > 2]
+    sv = rn.spf_sieve(maxq * maxq)
+    out = set()
+    for i, p in enumerate(pr):
+        for q in pr[i + 1:]:
+            m = p * q - 1
+            # divisors of m from its factorisation
+            divs = [1]
+            mm = m
+            while mm > 1:
+                f = sv[mm]
+                e = 0
+                while mm % f == 0:
+                    mm //= f
+                    e += 1
+                divs = [d * f ** j for d in divs for j in range(e + 1)]
+            for d in divs:
+                r = d + 1
+                if r <= q or not rn.is_prime_det(r):
+                    continue
+                n = p * q * r
+                if (n - 1) % (p - 1) == 0 and (n - 1) % (q - 1) == 0 and \
+                        (n - 1) % (r - 1) == 0:
+                    out.add(n)
+    return sorted(out)
+
+
 def liar_families(kmax):
     """(k+1)(rk+1) with both factors prime, r in {2,3,4}: classical strong
     pseudoprime candidates to few bases"""
@@ -313,6 +345,9 @@ def main(ctx):
     car = carmichael_upto(ctx.pick(10 ** 7, 10 ** 8 // 2))
     for ch in common.chunks(car, 4):
         jobs.append((shard_special, "is_prime-structured", ("composite", ch)))
+    car3 = carmichael3(ctx.pick(700, 1400))
+    for ch in common.chunks(car3, 4):
+        jobs.append((shard_special, "is_prime-structured", ("composite", ch)))
     liars = liar_families(ctx.pick(1 << 15, 1 << 16))
     for ch in common.chunks(liars, ctx.jobs):
         jobs.append((shard_special, "is_prime-structured", ("composite", ch)))
@@ -327,11 +362,16 @@ def main(ctx):
     rep.coverage["carmichael_numbers"] = len(car)
     rep.coverage["carmichael_bound"] = ctx.pick(10 ** 7, 10 ** 8 // 2)
     rep.coverage["liar_family_members"] = len(liars)
+    rep.coverage["carmichael_three_factor"] = dict(
+        count=len(car3), largest=str(car3[-1]),
+        rule="all p*q*r, primes p < q <= %d" % ctx.pick(700, 1400))
     rep.rule = (
         "is_prime: every n in [-5, %d] against a sieve; psi_1..psi_10 strong "
         "pseudoprime thresholds (factorisations re-multiplied); ALL "
         "Carmichael numbers below the stated bound (Korselt from an spf "
-        "sieve); all (k+1)(rk+1), r in {2,3,4}, with both factors prime; "
+        "sieve) and ALL three-factor Carmichael numbers p*q*r with p < q below "
+        "a bound (r from the divisors of pq-1; numbers up to ~10^17, with and "
+        "without factors in the small-prime table); all (k+1)(rk+1), r in {2,3,4}, with both factors prime; "
         "products around 1229; curve primes/orders and known (pseudo-)Mersenne "
         "primes must be accepted. next_prime: every n in [-3, %d]. "
         "factorization: every n in [-2, %d] + products around the small-prime "
